@@ -39,7 +39,23 @@ def random_config(ctx, strategy="filter", it=0):
         base = float(2.0 ** rng.integers(-3, 4))
     else:
         base = [float(2.0 ** rng.integers(-3, 4)) for _ in range(d)]
-    cfg = sm.Config(fact=fact, solver=solver, strategy=strategy, lin=lin, q=q, damp=damp, init=init, base_scale=base)
+    prior, diffuse, cinit = "iwp", 0, False
+    r = rng.random()
+    if r < 0.25 and q - order >= 1:
+        diffuse = int(rng.integers(1, min(2, q - order) + 1))
+        cinit = bool(rng.random() < 0.7)
+    elif r < 0.4 and fact == "dense" and solver in ("solver", "mle", "mle_nocorr"):
+        prior = gen.pick(rng, ["ou", "matern"])
+        q = min(q, 4)
+    elif r < 0.5:
+        cinit = True
+    regular_S0 = (init != "exact") or damp > 0.0 or (order >= q + 1 - diffuse)
+    if cinit and solver.startswith("mle") and not regular_S0:
+        # the MLE init term whitens the residual with solve_tril: for a singular innovation covariance the real code returns
+        # NaN (0/0) -- same class as finding D8 (zero residual variance); not generated here, recorded in DESIGN 9.5
+        cinit = False
+    cfg = sm.Config(fact=fact, solver=solver, strategy=strategy, lin=lin, q=q, damp=damp, init=init, base_scale=base,
+                    prior=prior, diffuse=diffuse, constraint_init=cinit)
     return cfg, d, order
 
 
@@ -84,10 +100,11 @@ def refine_steps(ctx, cfg, d, field, u0s, t0, hs, sigp="step", with_bw=False):
 
     objs = sm.build(cfg, field, u0s, t0)
     solver, prior = objs["solver"], objs["prior"]
-    stepper = sm.ModelStepper(ctx, cfg, field, d, lam_of(cfg, d))
+    stepper = sm.ModelStepper(ctx, cfg, field, d, lam_of(cfg, d), prior=prior)
     state = solver.init(jnp.asarray(t0), prior, damp=cfg.damp)
     t = F(t0)
     case = case_of(cfg, field, u0s, t0, hs)
+    check_init(ctx, cfg, stepper, prior, state, t, case, sigp)
     for i, h in enumerate(hs):
         new = solver.step(state, dt=jnp.asarray(h), damp=cfg.damp)
         s0 = sm.state_slices(cfg, state)
@@ -150,6 +167,43 @@ def refine_steps(ctx, cfg, d, field, u0s, t0, hs, sigp="step", with_bw=False):
         state = new
         t = t + F(h)
     return objs
+
+
+def check_init(ctx, cfg, stepper, prior, state, t, case, sigp):
+    """`solver.init`: the state is the prior's initial Gaussian, conditioned on the constraint when `constraint_init` is set
+    (lstsq / minimum-norm gain), with an identity backward model; MLE bookkeeping starts at (rms of that residual, 1) or (0, 0)."""
+    n = stepper.N
+    ns = sm.normal_slices(cfg.fact, prior.init)
+    ms = [{"mean": m, "cov": C, "bw": sm.ident_pcond(n)} for m, C in ns]
+    mahas = None
+    if cfg.constraint_init:
+        pv = [np.array([st["cov"][a, a] for a in range(n)], dtype=object) for st in ms]
+        try:
+            ms2, mahas, lins = stepper.init_update(ms, t)
+        except core.ModelError as e:
+            ctx.skip("model refused the initial-constraint update: " + e.ans[:60])
+            return
+        extra = stepper.gain_noise_scale(lins, [st["mean"] for st in ms], [st["cov"] for st in ms])
+        ms = ms2
+        ctx.count("constraint_init=True")
+    else:
+        pv, extra = None, None
+    s0 = sm.state_slices(cfg, state)
+    sm.compare_state(ctx, "init", s0, ms, TOL, dict(case, step="init"), f"{sigp}:init:{cfg.fact}:{cfg.solver}", scale_vars=pv, mean_extra=extra)
+    if cfg.solver.startswith("mle"):
+        r2, num = aux_of(cfg, state)
+        if cfg.constraint_init and mahas is not None and all(m_ >= 0 for m_ in mahas):
+            exp = stepper.rms2(mahas)
+            a = np.atleast_1d(sm.tofloat(np.array(r2 if isinstance(r2, list) else [r2], dtype=object)))
+            b = np.atleast_1d(sm.tofloat(np.array(exp if isinstance(exp, list) else [exp], dtype=object)))
+            dev = float(np.max(np.abs(a - b) / np.maximum(np.max(np.abs(b)), 1e-300)))
+            ctx.dev("init.mle.running_scale2", dev, 1e-8, case=dict(case, step="init"), sig=f"{sigp}:init:{cfg.fact}:mle:running-scale", what=f"initial MLE running scale^2 {a} vs model {b}")
+            if num != 1:
+                ctx.violation(f"{sigp}:init:mle:num_data", f"num_data after the initial update is {num}, expected 1", case)
+        elif not cfg.constraint_init and num != 0:
+            ctx.violation(f"{sigp}:init:mle:num_data", f"num_data without initial update is {num}, expected 0", case)
+    if int(state.num_steps) != 0:
+        ctx.violation(f"{sigp}:init:num_steps", "num_steps after init is not 0", case)
 
 
 def predicted_cov_float(ctx, stepper, st, h, info):
@@ -269,7 +323,7 @@ def run(ctx):
         field, u0s, t0 = make_problem(ctx, cfg, d, order)
         nst = int(ctx.rng.integers(2, 4))
         hs = [float(2.0 ** ctx.rng.integers(-10, 1)) * float(gen.pick(ctx.rng, [1.0, 0.75, 1.5])) for _ in range(nst)]
-        for k in ("fact", "solver", "lin", "init"):
+        for k in ("fact", "solver", "lin", "init", "prior", "diffuse"):
             ctx.count(f"{k}={getattr(cfg, k)}")
         ctx.count(f"q={cfg.q}")
         ctx.count(f"damp={'0' if cfg.damp == 0 else '>0'}")
